@@ -1321,6 +1321,9 @@ def direct_C19(s, data, blk) -> List[str]:
             out.append("routes to cel %s disagree: %s" % (key, routes))
         elif routes[0][:2] != list(key):
             out.append("cel %s reports coordinates %s" % (key, routes[0][:2]))
+        elif (routes[0][2] == 1) != ((key[0], key[1]) not in s["cels"]):
+            # (is_empty is what the FILE says about that frame and layer: a cel chunk for exactly them, or none)
+            out.append("cel %s reports is_empty = %d, the file has %s cel chunk for that frame and layer" % (key, routes[0][2], "no" if (key[0], key[1]) not in s["cels"] else "a"))
     cel_imgs = images_of(blk, 24)
     for (l, f), im in images_of(blk, 27).items():
         if cel_imgs.get((f, l)) != im:
@@ -1361,14 +1364,15 @@ def check_C19(tier, seed):
         for g in range(16 if tier == "quick" else 96):
             s = covering_sprite(g, rng)
             out.append((s, gen.encode(s, None, rng)))
-        # more layers than a 16-bit index can tell apart: 65538 layers, cels on layers 0, 1 and 65536 only (the cel of layer 65537 is
+        # more layers than a 16-bit index can tell apart: 65538 layers, cels on layers 0 and 1 only (the cel of layer 65537 is
         # absent - not the cel of layer 1; the observation looks at the first layers and at the last one)
         nl = 65538
         layers = [{"flags": 1 if i != 0 else 0, "ltype": 0, "level": 0, "blend": 0, "opacity": 255, "name": "", "tileset": 0, "ud": None, "default_w": 0, "default_h": 0}
                   for i in range(nl)]
         cels = {(0, 0): {"kind": "raw", "x": 0, "y": 0, "w": 1, "h": 1, "opacity": 255, "pixels": [(250, 1, 2, 255)], "ud": None},
                 (0, 1): {"kind": "raw", "x": 1, "y": 0, "w": 1, "h": 1, "opacity": 255, "pixels": [(3, 240, 4, 255)], "ud": None},
-                (1, 65536): {"kind": "raw", "x": 0, "y": 1, "w": 1, "h": 1, "opacity": 200, "pixels": [(5, 6, 230, 255)], "ud": None}}
+                (1, 1): {"kind": "raw", "x": 0, "y": 1, "w": 1, "h": 1, "opacity": 200, "pixels": [(5, 6, 230, 255)], "ud": None}}
+        # (a cel chunk stores its layer as a 16-bit word: layers 65536 and 65537 can have no cel at all)
         big = {"width": 2, "height": 2, "depth": 32, "transparent": 0, "durations": [100, 100], "speed": 100, "palette_chunks": [], "palette": None,
                "sprite_ud": None, "ext_files": [], "tilesets": [], "layers": layers, "cels": cels, "tags": [], "has_tags_chunk": False, "slices": [],
                "_nomodel": True}
